@@ -66,13 +66,16 @@ CLAIMED = {
    text="Machine-checked proof (Coq): simulate_nested_eq_flat / regrouping_immaterial (any nesting of lists and any '*' grouping gives the state of the flat sequence, by "
         "induction over the nested structure), multi_duration, multi_nshift, and combine_apply_states (whenever '@' accepts two operands -- scalar@scalar, matrix@matrix, "
         "matrix@scalar, scalar@matrix, with or without recovery terms -- the combined arrays act on any state matrix exactly as the operands applied in order). The clause on "
-        "first/second-order partials of '@' is NOT a theorem: it is checked on the implementation against sequential application (testing) and is violated for alias / "
-        "coefficient-map declarations and for second order outside four operand classes mapped experimentally (two known findings; the "
-        "four reliable classes are checked as violations).",
+        "FIRST-order partials of '@' is a theorem for operands that declare their parameters under their own names (order1=True / a name / a list of names): "
+        "combine_order1 -- if the combined operator holds the arrays, derivative arrays and merged order1 that _combine is modelled to build (combined_ok, "
+        "evaluated in Coq on the implementation's a @ b objects by the correspondence), then for every state and every previously carried partials it yields "
+        "the state and the first-order partials of the operands applied in order (product rule). With alias / coefficient-map declarations, and at second order "
+        "outside four operand classes mapped experimentally, the clause is violated on the pinned tree (two known findings; the four reliable second-order classes "
+        "are checked as violations by testing).",
    design_ref="DESIGN.md section 4 C10, section 9 item 15",
    note=TB + "Model/Combine.v tied to opscalar/opmatrix _combine by exact comparison of the combined arrays for chains of 2-4 operands in either association; shape/duration of "
         "real combined operators with 0-3 batch axes by oracle. Axioms: none.",
-   technique="Coq proof (induction over nested sequences; ring identities per phase state) + exact correspondence + implementation-side oracle"),
+   technique="Coq proof (induction over nested sequences; ring identities per phase state; product rule for combined derivative arrays) + exact correspondence + implementation-side oracle"),
  "C12": dict(
    text="Machine-checked proof (Coq) on Model/Run.v (simulate_simple transcribed: apply in place, tic += duration, at each probe occurrence record (pb or op).acquire(sm, "
         "post=op.post), transposition, single-probe flattening; get_adc_times; modify/default_modifier with memo, att, P vs E, defaults): probe_count_order (one row per probe "
@@ -135,17 +138,24 @@ CLAIMED = {
         "Axioms: none.",
    technique="Coq proof (contamination-front invariant by induction over programs) + exact correspondence + implementation-side oracles"),
  "C03": dict(
-   text="Machine-checked proof (Coq), PARTIAL: (a) all 17 closed-form second-derivative arrays of T, Phi, E, P, R, TRANSLATED from the source "
-        "on every run, are proved to be the derivatives (Coquelicot is_derive) of the translated first-derivative arrays, for BOTH orders of "
-        "differentiation of every mixed entry, and the parameter pairs absent from PARAMETERS_ORDER2 are proved identically zero; (b) "
-        "hessian_symmetric for every state and variable list on the literal model of _apply_order2. Exactness/completeness of the second-order "
-        "BOOKKEEPING over programs is not yet a theorem: the literal transcription of _apply_order2 (Model/Diff.v) is tied to diff.py by exact "
-        "correspondence of sm.order2 after every operator and checked against Richardson finite differences of simulate() for random coefficient "
-        "maps (variables driving several parameters, pairs across operators, explicit pair lists) -- that part is testing.",
-   design_ref="DESIGN.md section 4 C03, section 9 items 6 and 10b",
-   note=TB + "Translator validated by the Interval tie. Missing for a full proof: the jet-level theorem order2_step/order2_run (planned as for C02's order1_run). "
-        "Axioms: classical reals, funext, classic for (a); none for (b).",
-   technique="Coq proof (real analysis on translated second-derivative tables; symmetry) + exact correspondence + finite-difference oracle"),
+   text="Machine-checked proof (Coq) in two halves, as for C02. (a) Bookkeeping: on the literal transcription of diff.py's _apply_order2 / "
+        "DiffOperator.__call__ (Model/Diff.v: de-duplication by Pair, coefficient term, order2_coeffs with accumulation, cross dictionaries "
+        "selected by v1 >= v2 / v1 <= v2), for ANY two commuting derivations dv1, dv2 of the scalar ring and every program whose operators "
+        "satisfy the first- and second-order chain rule through their declared coefficients (every declaration form, automatic or explicit "
+        "cross derivatives, aliases, coefficient maps; shifts incl. truncation, Wait, PD without reset), the state carried in sm.order2 under "
+        "Pair(v1,v2) equals dv1(dv2(state)) phase state by phase state, and the Hessian probe returns dv1(dv2(signal)) in both mixed entries "
+        "(lookup_order2, order2_run, hessian_exact; induction over programs). (b) Analysis: all 17 closed-form second-derivative arrays of T, Phi, "
+        "E, P, R, TRANSLATED from the source on every run, are the derivatives (Coquelicot is_derive) of the translated first-derivative "
+        "arrays for BOTH orders of differentiation of every mixed entry; pairs absent from PARAMETERS_ORDER2 are identically zero; "
+        "hessian_symmetric.",
+   design_ref="DESIGN.md section 4 C03",
+   note=TB + "Translator validated by the Interval tie; Model/Diff.v tied to diff.py by exact correspondence of sm.order2 after every operator; Richardson "
+        "finite differences of simulate() for random coefficient maps as supporting oracle. The hypothesis cross_ok of (a) excludes exactly the cases in "
+        "which the code itself omits cross terms (auto=False with an undeclared pair; an operator without order2 declaration applied before any "
+        "second-order partial exists): there the Hessian is not the second derivative and the theorem does not claim it. The analytic composition "
+        "(a)+(b) => second is_derive of the signal is not mechanised at second order (it is at first order, C02). Axioms: none for (a); classical reals, "
+        "funext, classic for (b).",
+   technique="Coq proof (second-order derivation-exactness by induction over programs; real analysis on translated second-derivative tables) + translator + exact correspondence + finite-difference oracle"),
  "C16": dict(
    text="Machine-checked proof (Coq) on an executable state-machine model of ArrayCollection faithful to the code (insertion-ordered dicts, layouts with "
         "one Ellipsis anywhere, caches, in-place branch of update, linked child): resize_centre (pad/crop about the centre for any lengths and parity), "
